@@ -48,12 +48,12 @@ def run(c):
          expect="DescriptorTracksData", name="sensitivity: BufferedPipe.empty() leaves the event set", workers=4)
     fbatch, fmeta = [], []
     for pi, prog in enumerate(pipes.fileno_programs()):
-        cap = (10 if prog.get("R") else 40) if c.quick else 150
+        cap = (10 if prog.get("R") else 40) if c.quick else (40 if prog.get("R") else 80)
         for ex in pipes.fileno_explore(prog, "dfs", 1, cap, c.seed):
             fbatch.append(ex.verdict)
             fmeta.append({"fileno_program": prog, "choices": ex.choices, "labels": ex.labels})
             c.case(key=("fn%d" % pi, tuple(ex.choices)))
-        for ex in pipes.fileno_explore(prog, "random", 0, (2 if prog.get("R") else 5) if c.quick else 30, c.seed * 77 + pi):
+        for ex in pipes.fileno_explore(prog, "random", 0, (2 if prog.get("R") else 5) if c.quick else 15, c.seed * 77 + pi):
             fbatch.append(ex.verdict)
             fmeta.append({"fileno_program": prog, "choices": ex.choices, "labels": ex.labels})
             c.case(key=("fnr%d" % pi, tuple(ex.choices)))
@@ -86,7 +86,7 @@ def run(c):
     progs = fixed + pipes.c24_programs(rnd, 4 if c.quick else 24)
     for pi, prog in enumerate(progs):
         k = 0
-        for ex in pipes.c24_explore(prog, "dfs", 2, 120 if c.quick else 1200, c.seed):
+        for ex in pipes.c24_explore(prog, "dfs", 2, 120 if c.quick else 600, c.seed):
             k += 1
             v = ex.verdict
             batch.append(v)
